@@ -19,6 +19,9 @@ def jsonable(x):
     return repr(x)
 
 
+LAST_CASE = [None]      # the case most recently registered by any monitor (for reporting when evaluation itself fails)
+
+
 class Mon:
     def __init__(self, prop, max_failures=5):
         self.prop = prop
@@ -36,6 +39,7 @@ class Mon:
     def case(self, case, nontrivial=True, sample_every=997):
         """register one explored case; returns True if it is new"""
         self.evaluations += 1
+        LAST_CASE[0] = case
         h = hashlib.sha1(json.dumps(jsonable(case), sort_keys=True).encode()).hexdigest()
         new = h not in self.seen
         if new:
